@@ -30,8 +30,12 @@ class StallPlan:
 
 
 class SimAudioSource(AudioSource):
-    def __init__(self, data, sr, sw, ch, stall=None, label="src"):
+    def __init__(self, data, sr, sw, ch, stall=None, label="src",
+                 closed_error=None):
         super().__init__(sr, sw, ch)
+        # what a read on a source that is not open raises: the library's
+        # AudioIOError, or OSError (as e.g. its PyAudioSource does)
+        self.closed_error = closed_error or AudioIOError
         self._data = data
         self._pos = 0
         self._open = False
@@ -70,7 +74,7 @@ class SimAudioSource(AudioSource):
             if self.stall is not None:
                 self.stall.maybe_stall(s)
         if not self._open:
-            raise AudioIOError("Stream is not open")
+            raise self.closed_error("Stream is not open")
         self.reads += 1
         if self.eof_returned:
             self.reads_after_eof += 1
@@ -105,7 +109,16 @@ class SimPipe:
     def served_bytes(self):
         return b"".join(self.served)
 
+    closed = False
+
+    def close(self):
+        # closing the process's standard input: every later read fails, as
+        # with a real file object
+        self.closed = True
+
     def read(self, n=-1):
+        if self.closed:
+            raise ValueError("read of closed file")
         s = _sim()
         if s is not None:
             s.step("pipe.read", n)
@@ -133,6 +146,8 @@ class SimPipe:
         whatever fragment happens to be available, possibly fewer than n
         bytes and not sample aligned.  Fragment sizes are drawn (fault kind
         `short_read`)."""
+        if self.closed:
+            raise ValueError("read of closed file")
         s = _sim()
         if s is not None:
             s.step("pipe.read1", n)
